@@ -1115,7 +1115,7 @@ emitTheC(EmitInfo finfo, CCodeList cco)
 				fprintf(fout, "\n");
 				if (emitDoLineNos && ccLineNos())
 					fprintf(fout, "#line 1 \"%s.as\"\n\n",
-						fnameName(fn));
+						fnameName(srcfn));
 				fprintf(fout, "#include \"foam_c.h\"");
 				if (l > 1)
 					fprintf(fout, "\n#include \"%s\"",
